@@ -164,6 +164,14 @@ WordSelectOK(which, w, r) ==
     /\ which = "select0" => 64 * w + 64 <= N
     /\ \A k \in 0..64 : r[k + 1] = WSel(which, w, k)
 WordSelect(which, w, r) == WordSelectOK(which, w, r) /\ UNCHANGED vec
+(* ONE call selecting several ones of ONE word (any order, duplicates allowed): succeeds with every     *)
+(* position when all k are valid, fails when some k >= ones of the word; an empty question may be refused *)
+WordSelectBatchOK(w, at, ok, r) ==
+    /\ ok => /\ \A j \in 1..Len(at) : at[j] < WOnes(w)
+             /\ Len(r) = Len(at)
+             /\ \A j \in 1..Len(at) : r[j] = WSel1(w, at[j])
+    /\ ~ok => Len(at) = 0 \/ \E j \in 1..Len(at) : at[j] >= WOnes(w)
+WordSelectBatch(w, at, ok, r) == WordSelectBatchOK(w, at, ok, r) /\ UNCHANGED vec
 (* popcount of every 64-bit word *)
 PopcountsOK(r) ==
     /\ Len(r) = (N + 63) \div 64
